@@ -29,10 +29,15 @@ func (p *P0x8800) ReplyProtocol() consts.JT808CommandType {
 
 func (p *P0x8800) Parse(jtMsg *jt808.JTMessage) error {
 	body := jtMsg.Body
-	if len(body) < 5 {
+	if len(body) < 4 {
 		return protocol.ErrBodyLengthInconsistency
 	}
 	p.MultimediaID = binary.BigEndian.Uint32(body[0:4])
+	if len(body) == 4 {
+		// 收到全部数据包时没有后续字段 (Encode 在重传列表为空时也只写多媒体ID)
+		p.AgainPackageCount = 0
+		return nil
+	}
 	p.AgainPackageCount = body[4]
 	if len(body) != 5+2*int(p.AgainPackageCount) {
 		return protocol.ErrBodyLengthInconsistency
